@@ -74,6 +74,8 @@ UNMARSHAL_INPUTS = [
     "datetime.datetime(2020, 1, 2, 3, 4, 5, tzinfo=datetime.timezone.utc)", "uuid.UUID(int=5)", "object()", "2", "'a b'",
     "253402300800", "-62135596801", "1e300", "[('a', 1)]", "'[1, 2'", "' '", "'1e5'", "'0x10'", "5", "'5'", "'x' * 40", "3.7",
     "datetime.time(1, 2, tzinfo=datetime.timezone.utc)", "datetime.timedelta(seconds=5)", "[None]", "{'a': None}", "'2'.encode()",
+    # numbers a temporal member rejects with yet another error class (the platform's timestamp conversion: OSError / OverflowError)
+    "2**62", "-2**63", "10**18", "1e18", "'1000000000000000000'", "2**63 - 1", "7 * 10**16",
 ]
 MARSHAL_INPUTS = [
     "None", "True", "0", "1", "-5", "10**20", "1.5", "''", "'a'", "'1'", "'abc'", "2", "'2020-01-02'",
